@@ -47,7 +47,7 @@ def check_graph(run: CPRun) -> CaseInfo:
     for r in w.analysed.values():
         want[(r.id, r.ts - shift, True)] += 1
         want[(r.id, r.end - shift, False)] += 1
-    got = Counter((int(n.ev_idx), int(n.ts), bool(n.is_start)) for n in nodes)
+    got = Counter((int(n.ev_idx), float(n.ts), bool(n.is_start)) for n in nodes)
     require(got == want, "nodes:one_start_one_end_per_analysed_event",
             lambda: f"missing {sorted((want - got).elements())[:8]} extra {sorted((got - want).elements())[:8]} "
                     f"window [{w.start - shift},{w.end - shift}] annotation {p['annotation']!r} inst {p['instance']}")
